@@ -82,6 +82,8 @@ var tlbTargets, tlbByName = func() ([]regType, map[string]reflect.Type) {
 	for _, r := range tlbRegistry {
 		walk(r.T, 0)
 	}
+	// generic decoders no shipped type instantiates
+	out = append(out, regType{"tlb.Either[tlb.Grams,tlb.Ref[tlb.MsgAddress]]", reflect.TypeOf(tlb.Either[tlb.Grams, tlb.Ref[tlb.MsgAddress]]{})})
 	m := map[string]reflect.Type{}
 	var dedup []regType
 	for i := range out {
@@ -1103,6 +1105,9 @@ func (gc *genCtx) genTLB() {
 			g.Counters["tlb_inputs_per_scalar_type"] = nRand + nMut + nEvery + 2*nBomb + g.Scale(4, 60)/scale
 			g.Counters["tlb_scalar_types"]++
 		}
+		if g.N%5 == 0 {
+			gc.emitPendingFlag()
+		}
 		emit("rand", nRand)
 		emit("mut", nMut)
 		if has {
@@ -1135,9 +1140,11 @@ func (gc *genCtx) genTLB() {
 }
 
 var tlbExec = map[string]h.ExecFn{
-	"go.tlb.fuzz": goTLBFuzz,
-	"go.tlb.one":  goTLBOne,
-	"go.abi.dec":  goABIDec,
+	"go.tlb.fuzz":     goTLBFuzz,
+	"go.tlb.one":      goTLBOne,
+	"go.abi.dec":      goABIDec,
+	"go.tlb.flags":    goTLBFlags,
+	"go.tlb.covseeds": goTLBCovSeeds,
 	// modelled custom decoders (compared with lean/TongoModel/TlbRead.lean)
 	"tlb.label":      exTLBLabel,
 	"tlb.countleafs": exTLBCountLeafs,
